@@ -439,6 +439,65 @@ def dispatch (env : Env) (j : Json) : Json :=
           ref := fun a => txt ((alle[a.2]?.bind (fun x => getStr? x "ref")).getD ""),
           alts := fun a => (alle[a.2]?.map (fun x => linesOf x "alts")).getD [] }
         Json.mkObj [("groups", gj (alleleAll al rel groups))]
+  | some "registry.run" =>
+    -- a history of register / find / header / read operations against the process-wide registry
+    let C0 := ctxOf env j
+    let K := hconsts
+    let defOf (d : Json) : SchemeDef := {
+      version := (getStr? d "version").getD "", annotation := (getStr? d "annotation").getD "",
+      base := getStr? d "extends",
+      filtered := match d.getObjVal? "filtered" with
+        | .ok (Json.arr a) => some (a.toList.filterMap (fun x => match x with | Json.str s => some s | _ => none))
+        | _ => none,
+      columns := (getArr d "columns").filterMap (fun c => match c with
+        | Json.arr a => match a[0]?, a[1]? with
+          | some (Json.str n), some (Json.str t) => some (n, t)
+          | _, _ => none
+        | _ => none) }
+    -- state: the registered extra definitions (accumulated), the current table and schemes
+    let build (extras : List SchemeDef) : Except PyErr (ClassTable × List Scheme) :=
+      let Cc : Ctx := { tbl := Generated.classTable, enums := Generated.enums, H := ⟨fun _ => none⟩ }
+      match checkSchemeData Cc extras with
+      | .error e => .error e
+      | .ok () =>
+        match buildSchemesTop { tbl := Generated.classTable, order := Generated.extendClassOrder } (Generated.schemeDefs ++ extras) with
+        | .error e => .error e
+        | .ok (st, ss) =>
+          if !validateSchemes (noRestrictionsClass :: ss.map (·.2)) then .error .value else .ok (st.tbl, ss.map (·.2))
+    let step (acc : (List SchemeDef × ClassTable × List Scheme) × List Json) (o : Json) :=
+      let ((extras, tbl, schemes), outs) := acc
+      let R := registryOf schemes
+      let C : Ctx := { C0 with tbl := tbl }
+      match getStr? o "k" with
+      | some "register" =>
+        let extras' := extras ++ (getArr o "defs").map defOf
+        match build extras' with
+        | .ok (tbl', schemes') => (((extras', tbl', schemes')), outs ++ [Json.mkObj [("exc", Json.null)]])
+        | .error e => ((extras, tbl, schemes), outs ++ [Json.mkObj [("exc", Json.str (errName e))]])
+      | some "find" =>
+        let r := R.findScheme ((getStr? o "version").map txt) ((getStr? o "annotation").map txt)
+        ((extras, tbl, schemes), outs ++ [match r with
+          | .ok (some s) => Json.mkObj [("annotation", Json.str s.annotation), ("version", Json.str s.version),
+                                         ("names", Json.arr (s.names.map Json.str).toArray)]
+          | .ok none => Json.mkObj [("found", Json.null)]
+          | .error e => Json.mkObj [("exc", Json.str (errName e))]])
+      | some "header" =>
+        let res := match Header.fromLines K R (linesOf o "lines") (modeOf o) with
+          | (h, .ok _) => Json.mkObj [("errors", errsJson h.errors)]
+          | (_, .error e) => Json.mkObj [("exc", Json.str (errName e))]
+        ((extras, tbl, schemes), outs ++ [res])
+      | some "read" =>
+        let res := match Reader.init C K R (linesOf o "lines") (modeOf o) none with
+          | .error e => Json.mkObj [("init_exc", Json.str (errName e))]
+          | .ok r =>
+            let (recs, err, r') := r.readAll C K
+            Json.mkObj [("scheme", match r.scheme with | some s => Json.str s.annotation | none => Json.null),
+              ("n", Json.num recs.length), ("errors", errsJson r'.errors),
+              ("iter_exc", match err with | some e => Json.str (errName e) | none => Json.null)]
+        ((extras, tbl, schemes), outs ++ [res])
+      | _ => ((extras, tbl, schemes), outs ++ [Json.mkObj [("fatal", "bad op")]])
+    let (_, outs) := (getArr j "ops").foldl step (([], env.tbl, env.schemes.map (·.2)), [])
+    Json.mkObj [("steps", Json.arr outs.toArray)]
   | some "schemes.build" =>
     -- definitions in load order; the result is compared as a set keyed by annotation
     let defs : List SchemeDef := (getArr j "defs").map (fun d => {
